@@ -827,6 +827,14 @@ def diff_kind(a, b) -> str:
         return "shape-differs"
     if ma and not np.array_equal(np.broadcast_to(np.ma.getmaskarray(a), da.shape), np.broadcast_to(np.ma.getmaskarray(b), db.shape)):
         return "mask-differs"
+    try:
+        if da.dtype.kind == "f":
+            va = np.where(np.ma.getmaskarray(a), 0, da) if ma else da
+            vb = np.where(np.ma.getmaskarray(b), 0, db) if ma else db
+            if np.array_equal(va, vb, equal_nan=True) and not np.array_equal(np.signbit(va), np.signbit(vb)):
+                return "only-sign-of-zero-differs"
+    except Exception:
+        pass
     return "values-differ"
 
 
